@@ -47,7 +47,8 @@ A_COMMON = [
     'A6 downstream observer.on_next does not raise back into the handler',
     'A7 the models of builtins / RxPY / stdlib in rxv/pymodels.py, heapmodels.py, strmodels.py, libmodels.py, world.py are trusted (listed per run under trusted_base)',
     'termination of loops is not verified',
-    'glue lemmas over the per-handler contracts: L1 (projection / confinement, lemmas/KT.lean) and L2 (composition) + L5 (folds) (lemmas/L2.lean) are checked by Lean 4; L3 (well-formedness of nested spawners) and L4 (framing uniqueness) are paper lemmas (DESIGN section 5)',
+    'what the extraction of a function drops: docstrings and string-literal statements, print / logging calls, the disposables returned by subscribe and the scheduler argument (passed through, never used); every other statement is interpreted or the function is reported outside the subset (undecided)',
+    'glue lemmas over the per-handler contracts: L1 (projection / confinement, lemmas/KT.lean), L2 (composition) + L5 (folds) (lemmas/L2.lean) and L4 (framing: chunking independence, uniqueness, round trip; lemmas/L4.lean) and L3a (a KT handler maps a well-formed mux trace to a well-formed one with the same live keys; lemmas/L3.lean) are checked by Lean 4; L3b (spawner ; inner pipeline ; demux is again a keyed transducer over the outer keys) is a paper lemma (DESIGN section 5) - the nesting scenarios of the bounded tier exercise it',
 ]
 
 define('C01', 'multiplexing is transparent', SCALAR + MISC_OPS + PLUMB + TEE + [op('spawners', 'group_by_mux')] + HELP('batch', 'distinct_until_changed', 'math', 'formal', 'misc')
@@ -55,7 +56,7 @@ define('C01', 'multiplexing is transparent', SCALAR + MISC_OPS + PLUMB + TEE + [
        A_COMMON + ['RxPY plain operators (ops.map/filter/first/last/take/to_list/do_action) are assumed to have their documented list semantics'], 'DESIGN 7/C01')
 define('C02', 'state confinement', STORE + SCALAR + SEQ + [op('seqops', 'assert_1_mux')] + SPAWN + TEE + HELP('batch', 'distinct_until_changed', 'formal') + LEAN('KT', 'L2')
        + [bounded('mux', 'check_c02')], A_COMMON, 'DESIGN 7/C02')
-define('C03', 'mux event protocol', SCALAR + SEQ + MISC_OPS + PLUMB + ERRORS + SPAWN + TEE + [bounded('mux', 'check_c03')], A_COMMON, 'DESIGN 7/C03')
+define('C03', 'mux event protocol', SCALAR + SEQ + MISC_OPS + PLUMB + ERRORS + SPAWN + TEE + LEAN('L3') + [bounded('mux', 'check_c03')], A_COMMON, 'DESIGN 7/C03')
 define('C04', 'group_by partitions', [op('spawners', 'group_by_mux'), op('seqops', 'demux_mux_observable')] + STORE + [bounded('mux', 'check_c04')], A_COMMON, 'DESIGN 7/C04')
 define('C05', 'roll windows', [op('roll', 'roll_mux'), op('roll', 'roll_count'), op('seqops', 'demux_mux_observable')] + STORE + [bounded('mux', 'check_c05')], A_COMMON, 'DESIGN 7/C05')
 define('C06', 'split', [op('spawners', 'split_mux'), op('seqops', 'demux_mux_observable')] + [bounded('mux', 'check_c06')], A_COMMON, 'DESIGN 7/C06')
@@ -77,9 +78,11 @@ define('C13', 'item-level errors', [op('scalar', n) for n in ('map_mux', 'filter
        + HELP('misc') + [bounded('mux', 'check_c13')], A_COMMON, 'DESIGN 7/C13')
 define('C14', 'memory store', STORE + [bounded('mux', 'check_c14')], A_COMMON[:3] + A_COMMON[6:9], 'DESIGN 7/C14')
 
-define('C15', 'framing round trip', [fn('framing', 'unit_framing', which='line'), fn('framing', 'unit_framing', which='length_prefix'), bounded('io', 'check_c15')],
+define('C15', 'framing round trip', [fn('framing', 'unit_framing', which='line'), fn('framing', 'unit_framing', which='length_prefix')] + LEAN('L4') + [bounded('io', 'check_c15')],
        ['A1', 'str.split / str.join / int.to_bytes / int.from_bytes / io.BytesIO models are trusted (rxv/strmodels.py)',
-        'the chunking-independence / uniqueness lemma L4 over the spec functions joinnl, frames, rest is a paper lemma (checked on a bounded scope by the e2e tier)',
+        'the glue from the per-call contracts to the whole-stream statement (chunking independence, uniqueness of the decomposition, round trip) is lemma L4, checked by Lean 4 '
+        '(lemmas/L4.lean: run_eq_frames, frames_enc, roundtrip, joinnl_unique, line_roundtrip) over lists of an abstract byte type; its hypotheses are the obligations discharged on the real '
+        'code plus size(hdr n) = n and len(hdr n) = P for n < 256^P (trusted int.to_bytes / from_bytes model)',
         'termination of the unframing loop is not verified'], 'DESIGN 7/C15')
 
 W = lambda *ws: [fn('wrappers', 'unit_wrappers', which=w) for w in ws]
@@ -89,11 +92,11 @@ A_LIB = ['the third-party libraries are opaque: their streaming laws (output = c
          'A1 synchronous single-threaded delivery', 'termination not verified']
 define('C16', 'compression round trip', W('compression') + [bounded('io', 'check_c16')], A_LIB, 'DESIGN 7/C16')
 define('C17', 'incremental codec', W('codec') + [bounded('io', 'check_c17')], A_LIB, 'DESIGN 7/C17')
-define('C18', 'csv round trip', W('csv') + [fn('framing', 'unit_framing', which='line'), bounded('io', 'check_c18')],
+define('C18', 'csv round trip', W('csv') + [fn('framing', 'unit_framing', which='line')] + LEAN('L4') + [bounded('io', 'check_c18')],
        A_LIB + ['A2f: float(text) is treated as the exact real value of the literal', 'the string escaping / quoted-field merging of csv.dump / create_line_parser is NOT under contract '
                 '(replace chains are outside solver reach): bounded tier only'], 'DESIGN 7/C18',
        level='other', level_why='partial: numeric field parsers, parser selection and the file pipeline are discharged deductively; the string escaping / quoted-field merging '
        '(replace chains, merge_escape_parts) is outside solver reach and is checked exhaustively on a stated small scope only')
-define('C19', 'json lines round trip', W('json', 'codec', 'compression') + [fn('framing', 'unit_framing', which='line'), bounded('io', 'check_c19')], A_LIB, 'DESIGN 7/C19')
+define('C19', 'json lines round trip', W('json', 'codec', 'compression') + [fn('framing', 'unit_framing', which='line')] + LEAN('L4') + [bounded('io', 'check_c19')], A_LIB, 'DESIGN 7/C19')
 define('C20', 'parquet round trip', W('parquet') + HELP('batch') + [op('scalar', 'scan_mux'), op('scalar', 'filter_mux'), op('scalar', 'map_mux')] + PLAIN('scan') + [bounded('io', 'check_c20')],
        A_LIB + ['_load_file (pyarrow batch iteration) is covered by the bounded tier only'], 'DESIGN 7/C20')
